@@ -181,6 +181,17 @@ class Instrument:
             tr.enum.append(tr.rel(filename))      # the enumeration order as Project.__init__ walks it
             return ("parse", tr.rel(filename))
         self.patch(fp.Project, "_fortran_file", scoped(parse_label)(fp.Project.__dict__["_fortran_file"]))
+        real_generic = fp.GenericSource
+
+        def generic_source(filename, settings):      # the other branch of the same loop: extra file types
+            tr.enum.append(tr.rel(filename))
+            old = (tr.label, tr.file)
+            tr.label, tr.file = "parse", tr.rel(filename)
+            try:
+                return real_generic(filename, settings)
+            finally:
+                tr.label, tr.file = old
+        self.patch(fp, "GenericSource", generic_source)
         # ---- correlate
         self.patch(fp.Project, "correlate", staged("correlate", "glue")(fp.Project.__dict__["correlate"]))
         orig_topo = tp.toposort_flatten
